@@ -83,7 +83,9 @@ let col_final cs oks _defs obs =
     push (match get_column_width up_w cs j with Ok w -> int_of_z w | _ -> -1);
     push (match get_actual_column_width up_w cs j with Ok w -> int_of_z w | _ -> -1);
     push (match is_column_hidden cs j with Ok b -> b2i b | _ -> -1);
-    push (match get_column_style cs j with Ok None -> 0 | Ok (Some s) -> int_of_z s + 1 | _ -> -1)) obs;
+    push (match get_column_style cs j with Ok None -> 0 | Ok (Some s) -> int_of_z s + 1 | _ -> -1);
+    (* Model::get_cell_style_index on an empty cell of the column, in a row without record *)
+    push (match style_at cs j with Some s -> int_of_z s | None -> 0)) obs;
   List.rev !out
 
 let row_final rs oks defs obs =
